@@ -6,7 +6,7 @@ CFG = {
                                    ("churn", "-mode churn -tier %s" % tier)],
     "signatures": {},
     "model_args": "-prop C15",
-    "rule": "after every mutator (exhaustive short histories over 4 keys x 3 implementations x 2-4 comparators) and periodically in long "
+    "rule": "after every mutator (exhaustive short histories over 4 keys x 3 implementations x up to 6 comparators, among them a-b, b-a and 3*(a-b) whose results are never +-1) and periodically in long "
             "histories (sorted / reverse-sorted / zig-zag / random insertions of up to 300 (quick) or 3000 (thorough) keys followed by "
             "DeleteMin / DeleteMax / alternating / keyed drains; random churn over up to 64 keys) the harness records Height(), "
             "Traverse(VLR), Traverse(LVR) and the hook dump (cached size, height, colour per node). The driver rebuilds the shape from "
